@@ -14,6 +14,7 @@ def gen(run):
             yield P.case_dense(rd, P.DEFAULT_MAX, None, b"".join(lay)), "seed-layouts"
     yield from P.gap_lattice(rng)
     yield from P.huge_gap_lattice()
+    yield from P.displacement_boundary()          # backward shifts of exactly 2^31 - 1, 2^31 (= i32::MIN), 2^31 + 1
     yield from P.rewrite_cases(rng, 700 if quick else 60000)
     yield from P.tree_mutations(rng, 150 if quick else 20000)
     yield from P.config_lattice(rng)
